@@ -237,7 +237,7 @@ func execLoop(h *vh.H, op string) string {
 		pkgs = back.Packages
 	}
 	e1 := flatPackages(pkgs)
-	e1dump := dumpAPI(e1)
+	e1dump := dumpAPI(dropEmpty(e1))
 	h.Nontrivial(e1dump)
 
 	// import
@@ -274,9 +274,13 @@ func execLoop(h *vh.H, op string) string {
 			same = false
 			j++
 		default:
-			if !proto.Equal(l1[i].root, l2[j].root) {
+			// compare the serialisable form: both sides as a reader of the wire bytes sees them
+			// (ToJ5Field builds `&Field_String_{}` with a nil inner message for map keys, which
+			// proto.Equal distinguishes from the empty message it serialises to)
+			r1, r2 := viaWire(l1[i].root), viaWire(l2[j].root)
+			if !proto.Equal(r1, r2) {
 				same = false
-				d := firstDiff(l1[i].root.ProtoReflect(), l2[j].root.ProtoReflect())
+				d := firstDiff(r1.ProtoReflect(), r2.ProtoReflect())
 				if d == "" {
 					d = "?"
 				}
@@ -297,6 +301,18 @@ func execLoop(h *vh.H, op string) string {
 	}
 	h.Count("loop.not-fixpoint")
 	return "ok " + e1dump + " | " + s2dump + " | diff " + e2dump
+}
+
+func viaWire(r *schema_j5pb.RootSchema) *schema_j5pb.RootSchema {
+	b, err := proto.MarshalOptions{Deterministic: true}.Marshal(r)
+	if err != nil {
+		return r
+	}
+	out := &schema_j5pb.RootSchema{}
+	if err := proto.Unmarshal(b, out); err != nil {
+		return r
+	}
+	return out
 }
 
 func compact(m proto.Message) string {
